@@ -169,3 +169,17 @@ func Guard(kind string, c func() any) func() {
 		}
 	}
 }
+
+// OpenFinding reports whether the known-findings file lists id as open. Exclusions made for an open
+// finding are only active while it is listed; once it is recorded as fixed the checks judge those cases again.
+func OpenFinding(id string) bool {
+	if os.Getenv("VERIF_NO_EXCLUSIONS") != "" {
+		return false
+	}
+	for _, f := range Findings() {
+		if f.ID == id && f.Status == "open" {
+			return true
+		}
+	}
+	return false
+}
